@@ -7,6 +7,7 @@ import (
 	"go/constant"
 	"go/token"
 	"go/types"
+	"os"
 	"strings"
 
 	"golang.org/x/tools/go/ssa"
@@ -87,6 +88,7 @@ type Engine struct {
 	params      map[string]int
 	smtDir      string
 	extra       map[string]interface{}
+	fnStats     map[string][3]int
 	replayer    func(h string, model map[string]interface{}) (failed []string, panicked string, covers []string, err error)
 }
 
@@ -246,6 +248,7 @@ func (e *Engine) CallFn(st *State, fn *ssa.Function, args []Value, in ssa.Instru
 	e.curFn = append(e.curFn, fn)
 	defer func() { e.curFn = e.curFn[:len(e.curFn)-1] }()
 	entryLen := len(st.pc)
+	entryNext := st.next
 	fr := &Frame{fn: fn, locals: make(map[ssa.Value]Value, 32), block: fn.Blocks[0], loops: map[int]int{}}
 	for i, p := range fn.Params {
 		if i < len(args) {
@@ -262,6 +265,22 @@ func (e *Engine) CallFn(st *State, fn *ssa.Function, args []Value, in ssa.Instru
 		if len(outs) > e.cfg.MaxPaths {
 			unsupported("too many paths in %s", fn)
 		}
+	}
+	if len(outs) > 1 && !e.cfg.TrackWrite {
+		for i := range outs {
+			if outs[i].Panic == nil {
+				outs[i].St.collect(entryNext, outs[i].Ret)
+			}
+		}
+	}
+	if e.fnStats != nil {
+		fs := e.fnStats[fn.String()]
+		fs[0]++
+		fs[1] += len(outs)
+		r := e.mergeAll(entryLen, outs)
+		fs[2] += len(r)
+		e.fnStats[fn.String()] = fs
+		return r
 	}
 	return e.mergeAll(entryLen, outs)
 }
@@ -296,6 +315,9 @@ func (e *Engine) mergeAll(entryLen int, outs []Outcome) []Outcome {
 			}
 		}
 		if !merged {
+			if os.Getenv("GOSYM_MERGEDBG") != "" && o.Panic == nil && len(res) > 0 && len(e.curFn) > 0 && strings.Contains(e.curFn[len(e.curFn)-1].String(), os.Getenv("GOSYM_MERGEDBG")) {
+				fmt.Fprintln(os.Stderr, "MERGEFAIL in", e.curFn[len(e.curFn)-1], ":", mergeFail)
+			}
 			res = append(res, o)
 		}
 	}
